@@ -847,9 +847,14 @@ pub fn check_c06(ix: &Ix<'_>, v: &mut Vec<Violation>) {
         // an ack (duplicate, unsolicited) that happens to carry the id of a send that is encoded but
         // not flushed yet: the endpoint cannot tell it from the real one, so after a deviation the
         // window opens when the operation starts.
+        // After a deviation what counts is when the acknowledgement ARRIVED: a duplicate acknowledgement sent
+        // before a later send with the same (re-used) identifier was even started, but delivered after it,
+        // is indistinguishable from the real one for the endpoint.
         let from = if deviated { o.start.min(wire.seq) } else { wire.seq };
         let ack = ix.sent.iter().find(|s| {
-            s.conn == 0 && s.seq > from && s.seq < *done_seq && matches!(&s.pkt, Some(p) if p.name() == want && p.pid() == Some(pid))
+            s.conn == 0
+                && matches!(&s.pkt, Some(p) if p.name() == want && p.pid() == Some(pid))
+                && if deviated { s.delivered.is_some_and(|d| d > from && d <= *done_seq) } else { s.seq > from && s.seq < *done_seq }
         });
         let Some(ack) = ack else {
             viol(
